@@ -794,6 +794,9 @@ func (c *cctx) evalCall(e *ast.CallExpr) cval {
 		if s, ok := a.v.(Sl); ok {
 			return cval{Sc{x.slComp(c.st, s)[0]}, nil}
 		}
+		if av, ok := a.v.(Ar); ok && len(av.Comp) == 1 {
+			return cval{Sc{av.Comp[0]}, nil}
+		}
 		c.fail("arr of non-slice")
 		return c.boolVal(True)
 	}
